@@ -4,6 +4,7 @@ import ShellOp.Proofs.MonitorEnable
 import ShellOp.Props.C07
 import ShellOp.Proofs.SnapshotCache
 import ShellOp.Generated.Trans
+import ShellOp.Model.Retry
 /-!
 # C01 — no cluster change is lost between Synchronization and later Events
 
@@ -492,21 +493,16 @@ theorem translated_isSynchronization_eq_model (t : Task) :
   | nil => simp [ShellOp.Trans.hookMetaIsSynchronization, Task.isSync, h, Id.run]; rfl
   | cons c rest => simp [ShellOp.Trans.hookMetaIsSynchronization, Task.isSync, h, Id.run]; rfl
 
-/-- **C01 (Synchronization that succeeds on a retry).** `t` is the Synchronization task at the head
-of its queue, every task of the same hook and type behind it that can be merged carries
-Synchronization contexts only (nothing else can be there: the hook's bindings are still locked), other
-goroutines append tasks meanwhile. Whatever is combined — several bindings, several groups, any
-stop predicate, any hook version — the task that is written back and executed (and RETRIED after a
-failed run) is again a Synchronization task: `IsSynchronization()` answers `true` for it, however
-many contexts it carries now, and it carries every monitor id of `t`. So the success of the retry
-takes the unlock branch for all of them (with `unlock_only_combined`: for exactly the merged ones). -/
-theorem retried_synchronization_is_synchronization (stopOf : Task → Option (Task → Bool)) (version : Nat)
+/-- The task that is written back is a Synchronization task whenever everything merged into it
+carries Synchronization contexts only — for any stop predicate, hook version, queue, concurrent
+appends. -/
+theorem prepared_is_synchronization_of_sync_merged (stopOf : Task → Option (Task → Bool)) (version : Nat)
     (qs : QSet) (t : Task) (rest : List Task) (apps : List (Nat × List Task))
     (hq : qs.get t.queue = some (t :: rest)) (hm : t.hasMeta = true)
     (nd : ((t :: rest).map (·.id)).Nodup)
     (fresh : ∀ a ∈ appsFor apps t.queue, a.id ∉ (t :: rest).map (·.id))
     (ht : SyncTask t)
-    (hrest : ∀ x ∈ rest, x.hook = t.hook → x.typ = t.typ → ∀ c ∈ x.ctxs, c.typ = 0)
+    (hmerged : ∀ x ∈ Spec.merged t (stopOf t) rest, ∀ c ∈ x.ctxs, c.typ = 0)
     (t' : Task) (qs' : QSet)
     (h : prepareRun stopOf version qs t (appendEnv apps) = (some t', qs')) :
     SyncTask t' ∧ t'.isSync = true ∧ ∀ m ∈ t.mons, m ∈ t'.mons := by
@@ -537,10 +533,7 @@ theorem retried_synchronization_is_synchronization (stopOf : Task → Option (Ta
           rcases List.mem_append.mp hc with hc | hc
           · exact hall c hc
           · obtain ⟨x, hx, hcx⟩ := List.mem_flatMap.mp hc
-            have hxr : x ∈ rest := (List.takeWhile_sublist _).subset hx
-            have hcomb := (takeWhile_mem hx).2
-            simp only [Spec.combinable, Bool.and_eq_true, beq_iff_eq] at hcomb
-            exact hrest x hxr hcomb.1.1.2 hcomb.1.2.symm c hcx
+            exact hmerged x hx c hcx
         · -- the monitor ids of `t` come first
           intro m hm'
           show m ∈ (if (Spec.monitors t _).length > 0 then Spec.monitors t _ else t.mons)
@@ -552,7 +545,39 @@ theorem retried_synchronization_is_synchronization (stopOf : Task → Option (Ta
   · simp only [Prod.mk.injEq, Option.some.injEq] at h
     obtain ⟨rfl, _⟩ := h; exact self
 
-/-- Non-vacuity (the layout of the harness' fixed case): two bindings of group 5 and a binding
+/-- Tasks behind the executed one are as they were created (only the executed head task is ever
+rewritten by combining; `HandleEnableKubernetesBindings` creates one context per task): a task
+whose FIRST context is a Synchronization carries Synchronization contexts only. -/
+def AsCreated (rest : List Task) : Prop := ∀ x ∈ rest, x.isSync = true → ∀ c ∈ x.ctxs, c.typ = 0
+
+/-- **C01 (Synchronization that succeeds on a retry)** — for the stop predicate of the code as it is
+(after the repair of this wave: a Synchronization task is merged with Synchronization tasks only).
+`t` is the Synchronization task at the head of its queue; behind it ANY tasks (Events of bindings of
+the same hook and group that are already unlocked, Schedule tasks, …), other goroutines append
+more meanwhile; any hook version, any groups, any `allowFailure` / `executeHookOnSynchronization`.
+The task that is written back and executed — and RETRIED after a failed run — is again a
+Synchronization task: `IsSynchronization()` answers `true` for it however many contexts it
+carries now, and it carries every monitor id of `t`. So whichever attempt succeeds takes the
+unlock branch for all of them (`unlock_only_combined`: and for nothing that stays queued). -/
+theorem retried_synchronization_is_synchronization (version : Nat)
+    (qs : QSet) (t : Task) (rest : List Task) (apps : List (Nat × List Task))
+    (hq : qs.get t.queue = some (t :: rest)) (hm : t.hasMeta = true)
+    (nd : ((t :: rest).map (·.id)).Nodup)
+    (fresh : ∀ a ∈ appsFor apps t.queue, a.id ∉ (t :: rest).map (·.id))
+    (ht : SyncTask t) (hrest : AsCreated rest)
+    (t' : Task) (qs' : QSet)
+    (h : prepareRun stopOnAllowFailureChangeOrSkippedSync version qs t (appendEnv apps) = (some t', qs')) :
+    SyncTask t' ∧ t'.isSync = true ∧ ∀ m ∈ t.mons, m ∈ t'.mons := by
+  refine prepared_is_synchronization_of_sync_merged _ version qs t rest apps hq hm nd fresh ht ?_ t' qs' h
+  intro x hx c hc
+  have hxr : x ∈ rest := (List.takeWhile_sublist _).subset hx
+  have hcomb := (takeWhile_mem hx).2
+  have hts := ht.isSync
+  simp only [Spec.combinable, stopOnAllowFailureChangeOrSkippedSync, hts, Bool.true_and,
+    Bool.and_eq_true, Bool.not_eq_true', Bool.or_eq_false_iff, Bool.not_eq_false'] at hcomb
+  exact hrest x hxr hcomb.2.1.1 c hc
+
+/-- Non-vacuity (the layout of the harness' fixed case 6): two bindings of group 5 and a binding
 without a group in one hook; the run that combines them carries TWO contexts and three monitors and
 is a Synchronization task; retried (combined again with nothing), it still is. -/
 example :
@@ -565,14 +590,29 @@ example :
     ((r.1.bind fun t1 => (prepareRun stopOnAllowFailureChangeOrSkippedSync 1 r.2 t1 id).1).map (·.isSync)) = some true := by
   decide
 
-/-- What the hypothesis on the queue is for: a context of the same group that is NOT a
-Synchronization (an Event of an already unlocked binding of that group) behind the task replaces its
-context when groups are compacted — the task written back no longer starts with a Synchronization. -/
-example :
-    let q : List Task := [{ id := 1, ctxs := [⟨1, 0, 5⟩], mons := [7], group := 5, btype := 2 },
-                          { id := 2, ctxs := [⟨2, 1, 5⟩], mons := [8], group := 5, btype := 2 }]
-    ((prepareRun stopOnAllowFailureChangeOrSkippedSync 1 [(0, q)] q.head! id).1.map (·.isSync)) = some false := by
-  decide
+/-- The defect this wave found on the unchanged tree (repaired, commit in the notes): before the
+repair the Synchronization task of a grouped binding (monitor 7) was merged with a following Event
+task of the same group (a binding of that group whose Synchronization is not executed is unlocked
+at once and its Events queue up behind). Group compaction kept the Event context only; that run
+failed; the retry is no Synchronization any more: it succeeds and unlocks NOTHING — monitor 7 stays
+locked for the life of the process. (Harness: fixed case 850012.) -/
+theorem sync_boundary_unrepaired_retry_unlocks_nothing :
+    let t : Task := { id := 1, ctxs := [⟨1, 0, 5⟩], mons := [7], group := 5, btype := 2 }
+    let e : Task := { id := 2, ctxs := [⟨2, 1, 5⟩], mons := [8], group := 5, btype := 2 }
+    let cfg : Retry.Cfg := { stopOf := stopBeforeSyncBoundaryRepair, version := fun _ => 1, backoff := fun _ _ => 0 }
+    let h1 := Retry.taskHandleHookRun cfg [t, e] t false
+    let h2 := Retry.taskHandleHookRun cfg h1.items h1.items.head! true
+    h1.status = .fail ∧ h1.items.head!.ctxs = [⟨2, 1, 5⟩] ∧ h1.items.head!.isSync = false ∧
+    h2.status = .success ∧ h2.unlocked = [] := by decide
+
+/-- The same queue with the repaired predicate: the Event stays queued, the retry unlocks monitor 7. -/
+theorem sync_boundary_repaired_retry_unlocks :
+    let t : Task := { id := 1, ctxs := [⟨1, 0, 5⟩], mons := [7], group := 5, btype := 2 }
+    let e : Task := { id := 2, ctxs := [⟨2, 1, 5⟩], mons := [8], group := 5, btype := 2 }
+    let cfg : Retry.Cfg := { stopOf := stopOnAllowFailureChangeOrSkippedSync, version := fun _ => 1, backoff := fun _ _ => 0 }
+    let h1 := Retry.taskHandleHookRun cfg [t, e] t false
+    let h2 := Retry.taskHandleHookRun cfg h1.items h1.items.head! true
+    h1.status = .fail ∧ h1.items = [t, e] ∧ h2.status = .success ∧ h2.unlocked = [7] := by decide
 
 end ShellOp.Combine.C01
 
